@@ -1,0 +1,17 @@
+//go:build verif
+
+package logger
+
+// Contracts for the deductive verifier in /verif (govc).  This file contains comments only;
+// it is compiled only with -tags verif and declares nothing.
+
+//@ global logger: logger != nil
+//@ global elogger: elogger != nil
+//@
+//@ func Errorf(format, a) (err)
+//@   effects log
+//@   ensures {C14,C03} err != nil && errmsg(err) == sprintf(format, a)
+//@ func Warnf(format, a)
+//@   effects log
+//@ func Printf(format, a)
+//@   effects log
